@@ -98,7 +98,11 @@ pub fn check(c: &Case, ctx: &mut Ctx) -> Result<(), Failure> {
         if one_price_kinds && all_one_price {
             let of = by_field.next_scalar(b.c);
             let ok = if k == Kind::Kc {
-                let tol = 16.0 * ulp(big) * p.m.abs().max(1.0);
+                // "within rounding of (x+x+x)/3": every typical price is off by up to ~1.5 ulp of the price, and the two
+                // exponential averages round independently at every step; both effects are summed with weights
+                // alpha(1-alpha)^j, so the difference is bounded by a few ulps of the largest price so far times the
+                // memory 1/alpha = (n+1)/2 of the average (thorough tier, KC(193): 17 ulps after 16 bars)
+                let tol = (16.0 + 2.0 * (c.cfg.n() as f64 + 1.0)) * ulp(big) * p.m.abs().max(1.0);
                 ob.vals().iter().zip(of.vals()).all(|(x, y)| (x.is_nan() && y.is_nan()) || x == y || (x - y).abs() <= tol)
             } else {
                 same_out(&ob, &of, REL)
